@@ -41,7 +41,7 @@ def conc(name, n, steps, tiers, timeout=1700, **kw):
     i = {'name': name, 'src': 'conc.cpp', 'engine': 'cbmc-seq', 'shims': [_SHIM], 'models': ['aligned_alloc'],
          'rt_defs': {'VF_TYPED_SINGLETON': 1, 'VF_HAVE_THREAD_ATEXIT': 1}, 'rt_extra': ['harness/C41/thread_atexit_rt.c'],
          'native_extra': ['harness/C41/native_stubs.cpp'], 'defs': defs, 'steps': steps, 'nthreads': nthreads,
-         'spin_loops': True, 'seq_unroll': True, 'unwind': 3, 'timeout': timeout, 'mem_gb': 8, 'tiers': tiers,
+         'spin_loops': True, 'seq_unroll': True, 'checks': ['--no-standard-checks', '--div-by-zero-check'], 'unwind': 2, 'timeout': timeout, 'mem_gb': 8, 'tiers': tiers,
          'bounds': 'block size %d; threads A (alloc x%d, hand-over, dealloc), %sC (approxBytesAllocated), main (after join: %d alloc + '
                    'structure check); %d scheduler rounds' % (n, defs['VF_A_ALLOCS'], 'B (alloc, dealloc of A\'s block, thread exit), '
                                                               if defs['VF_WITH_B'] else '', defs['VF_POST'], steps)}
@@ -49,7 +49,27 @@ def conc(name, n, steps, tiers, timeout=1700, **kw):
     return i
 
 
+
+_PUSHBULK = '_ZN10moodycamel15ConcurrentQueueIPcNS_28ConcurrentQueueDefaultTraitsEE8pushBulkIPS1_EEbT_m'
+
+
+def intrude(name, n, tiers):
+    per = {256: 128, 128: 224, 64: 384}[n]
+    pfx = '_ZN8dispenso6detail20SmallBufferAllocatorILm%dEE' % n
+    return {'name': name, 'src': 'intrude.cpp', 'engine': 'cbmc', 'shims': [_SHIM], 'models': ['aligned_alloc'], 'nthreads': 1,
+            'rt_defs': {'VF_TYPED_SINGLETON': 1}, 'defs': {'VF_N': n, 'VF_MQ_CAP': per, 'VF_MQ_BULK_MAX': per * 3 // 4, 'VF_MQ_HOOKS': 1},
+            'unwind': 3, 'spin_loops': True, 'timeout': 600, 'tiers': tiers,
+            'unwind_fn': {pfx + '20grabFromCentralStoreEPPc': per * 3 // 4 + 1, _PUSHBULK: per * 3 // 4 + 1},
+            # grabFromCentralStore: loop 5 = spin on the lock word, loop 6 = outer while(true); pushBulk loop 0 = the CAS loop of
+            # bytesAllocated() inlined through the scheduling hook (cut after 3 iterations: it spins for ever on a held lock)
+            'unwindset': {pfx + '20grabFromCentralStoreEPPc.5': 2, pfx + '20grabFromCentralStoreEPPc.6': 2, _PUSHBULK + '.0': 3},
+            'bounds': 'block size %d; thread A: first alloc() on a fresh allocator (takes the lock, new slab); thread C: one '
+                      'bytesAllocated() scheduled (symbolic choice) while A is paused inside the critical section at the central-store '
+                      'enqueue and run to completion (spin loop cut after 3 iterations); then A resumes' % n}
+
+
 INSTANCES = [
-    conc('conc256_ac', 256, 3, ['quick', 'thorough'], defs={'VF_WITH_B': 0, 'VF_A_ALLOCS': 1, 'VF_POST': 0}),
-    seq('seq256_fresh', 256, 0, 0, 4, ['quick', 'thorough'], thorough={'defs': {'VF_N': 256, 'VF_WARM': 0, 'VF_BACK': 0, 'VF_OPS': 8, 'VF_MQ_CAP': 256, 'VF_MAXSLABS': 2}}),
+    intrude('intrude256', 256, ['quick', 'thorough']),
+    conc('conc256_ac', 256, 2, ['quick', 'thorough'], defs={'VF_WITH_B': 0, 'VF_A_ALLOCS': 1, 'VF_POST': 0}),
+    seq('seq256_fresh', 256, 0, 0, 2, ['quick', 'thorough'], thorough={'defs': {'VF_N': 256, 'VF_WARM': 0, 'VF_BACK': 0, 'VF_OPS': 8, 'VF_MQ_CAP': 256, 'VF_MAXSLABS': 2}}),
 ]
